@@ -136,3 +136,59 @@ package controller
 //@        && result.BindingContext[0].Metadata.BindingType == c.AdmissionLinks[event.WebhookId].BindingType
 //@        && result.BindingContext[0].Metadata.Group == c.AdmissionLinks[event.WebhookId].Group
 //@        && result.BindingContext[0].AdmissionReview != nil && result.BindingContext[0].AdmissionReview.Request == event.Request
+
+// ---- C02: one consistent set of snapshots per execution -----------------------------------------
+
+// Ghost view of the kubernetes bindings controller: how often the snapshot of a binding was
+// fetched and what the latest fetch returned.
+//@ ghost snapCount map[string]int
+//@ ghost snapOf map[string][]kemtypes.ObjectAndFilterResult
+//@ trusted func KubernetesBindingsController.SnapshotsFor
+//@   modifies snapCount, snapOf
+//@   ghostset snapCount[bindingName] := snapCount[bindingName] + 1
+//@   ghostset snapOf[bindingName] := result
+
+// the binding names whose snapshots a binding context receives (includeSnapshotsFrom, after the
+// group expansion done at configuration time), as a function of the binding
+//@ specfn includeOf(hc *HookController, bt htypes.BindingType, name string) []string
+//@ trusted func (*HookController).getIncludeSnapshotsFrom
+//@   modifies nothing
+//@   ensures result == includeOf(hc, bindingType, bindingName)
+
+// what a refreshed context shows for binding n: the snapshot fetched in this execution
+//@ pred ShowsSnapshot(s []kemtypes.ObjectAndFilterResult, n string) := ite(snapOf[n] != nil, s == snapOf[n], len(s) == 0)
+
+// C02: inside one execution the snapshot of a binding is fetched at most once and is the same
+// everywhere it appears (under `snapshots` of any context and as `objects` of that binding's
+// Synchronization context); the keys of `snapshots` are exactly the binding's includeSnapshotsFrom
+// names; contexts keep their order and identity.
+//@ func (*HookController).UpdateSnapshots
+//@   prop C02, C12
+//@   modifies snapCount, snapOf, hook.lastRefreshIn, hook.lastRefreshOut
+//@   ghostset hook.lastRefreshIn := context
+//@   ghostset hook.lastRefreshOut := result
+//@   let c0 := old(snapCount)
+//@   ensures [no-kubernetes]  hc.KubernetesController == nil ==> result == context
+//@   ensures [length]         hc.KubernetesController != nil ==> len(result) == len(context)
+//@   ensures [same-contexts]  hc.KubernetesController != nil ==> forall(i, 0, len(context), result[i].Binding == context[i].Binding && result[i].Type == context[i].Type && result[i].Metadata == context[i].Metadata && result[i].WatchEvent == context[i].WatchEvent)
+//@   ensures [fetched-at-most-once] forall(n, string, snapCount[n] == c0[n] || snapCount[n] == c0[n] + 1)
+//@   ensures [keys-all]       hc.KubernetesController != nil ==> forall(i, 0, len(context), forall(k, 0, len(includeOf(hc, context[i].Metadata.BindingType, context[i].Binding)), has(result[i].Snapshots, includeOf(hc, context[i].Metadata.BindingType, context[i].Binding)[k])))
+//@   ensures [consistent]     hc.KubernetesController != nil ==> forall(i, 0, len(context), forall(n, string, has(result[i].Snapshots, n) ==> snapCount[n] == c0[n] + 1 && ShowsSnapshot(result[i].Snapshots[n], n)))
+//@   ensures [sync-objects]   hc.KubernetesController != nil ==> forall(i, 0, len(context), context[i].Metadata.BindingType == htypes.OnKubernetesEvent && context[i].Type == kemtypes.TypeSynchronization ==> snapCount[context[i].Binding] == c0[context[i].Binding] + 1 && result[i].Objects == snapOf[context[i].Binding])
+//@   ensures [objects-kept]   hc.KubernetesController != nil ==> forall(i, 0, len(context), !(context[i].Metadata.BindingType == htypes.OnKubernetesEvent && context[i].Type == kemtypes.TypeSynchronization) ==> result[i].Objects == context[i].Objects)
+//@   loop 1
+//@     invariant 0 <= iter() && iter() <= len(context) && fresh(newContext) && len(newContext) == iter() && cache != nil && fresh(cache)
+//@     invariant forall(n, string, ite(has(cache, n), snapCount[n] == c0[n] + 1 && cache[n] == snapOf[n], snapCount[n] == c0[n]))
+//@     invariant forall(i, 0, iter(), newContext[i].Binding == context[i].Binding && newContext[i].Type == context[i].Type && newContext[i].Metadata == context[i].Metadata && newContext[i].WatchEvent == context[i].WatchEvent)
+//@     invariant forall(i, 0, iter(), newContext[i].Snapshots != nil && fresh(newContext[i].Snapshots) && newContext[i].Snapshots != cache)
+//@     invariant forall(i, 0, iter(), forall(k, 0, len(includeOf(hc, context[i].Metadata.BindingType, context[i].Binding)), has(newContext[i].Snapshots, includeOf(hc, context[i].Metadata.BindingType, context[i].Binding)[k])))
+//@     invariant forall(i, 0, iter(), forall(n, string, has(newContext[i].Snapshots, n) ==> has(cache, n) && ShowsSnapshot(newContext[i].Snapshots[n], n)))
+//@     invariant forall(i, 0, iter(), context[i].Metadata.BindingType == htypes.OnKubernetesEvent && context[i].Type == kemtypes.TypeSynchronization ==> has(cache, context[i].Binding) && newContext[i].Objects == snapOf[context[i].Binding])
+//@     invariant forall(i, 0, iter(), !(context[i].Metadata.BindingType == htypes.OnKubernetesEvent && context[i].Type == kemtypes.TypeSynchronization) ==> newContext[i].Objects == context[i].Objects)
+//@   loop 2
+//@     invariant 0 <= iter() && iter() <= len(includeSnapshotsFrom) && cache != nil && fresh(cache) && newBc.Snapshots != nil && fresh(newBc.Snapshots) && newBc.Snapshots != cache
+//@     invariant forall(n, string, ite(has(cache, n), snapCount[n] == c0[n] + 1 && cache[n] == snapOf[n], snapCount[n] == c0[n]))
+//@     invariant forall(k, 0, iter(), has(newBc.Snapshots, includeSnapshotsFrom[k]))
+//@     invariant forall(n, string, has(newBc.Snapshots, n) ==> has(cache, n) && ShowsSnapshot(newBc.Snapshots[n], n))
+//@     invariant forall(i, 0, len(newContext), newContext[i].Snapshots != newBc.Snapshots && newContext[i].Snapshots != cache && entries(newContext[i].Snapshots) == atloop(entries(newContext[i].Snapshots)))
+//@     invariant forall(n, string, atloop(has(cache, n)) ==> has(cache, n) && cache[n] == atloop(cache[n]) && snapOf[n] == atloop(snapOf[n]))
